@@ -163,8 +163,15 @@ def gen_layout_program(rng, big=False):
     for k in range(ndata):
         pos = rng.randint(0, len(items))
         name = 'D%d' % k
-        items[pos:pos] = [('label', 'id', name), ('data', rng.randrange(0, 1000))]
+        kind = rng.choice(['id', 'id', 'func', 'proc'])           # FUNC/PROC may name a DATA word too
+        run = [('label', kind, name)]
+        if rng.random() < 0.3:                                     # a run of labels before the word: all of them name it
+            run.insert(rng.randint(0, 1), ('label', rng.choice(['id', 'func', 'proc']), 'E%d' % k))
+        items[pos:pos] = run + [('data', rng.randrange(0, 1000))]
         dlabels.append(name)
+    if rng.random() < 0.25:                                        # two FUNC/PROC entries with no code between them
+        pos = rng.randint(0, len(items))
+        items[pos:pos] = [('label', rng.choice(['func', 'proc']), 'adj_a'), ('label', rng.choice(['func', 'proc']), 'adj_b')]
     out = []
     for it in items:
         if it[0] == 'ref' and it[2] == '#data':
